@@ -9,7 +9,7 @@
             [skel] (structure, key order, values, tags, quoting) plus the comment-line multiset.
    KTable : runtime values of the tables the model takes from the translators (yaml.FieldOrder,
             the three whitelists) and of the go-yaml style bits, probed by name. *)
-From KV Require Export Yaml.Fmt.
+From KV Require Export Yaml.Fmt Yaml.FmtTablesRef.
 
 (* short forms used by the harness' term printer *)
 Definition h0 (tag : string) (style : N) : hdr := mkHdr "" "" "" "" tag style.
@@ -29,7 +29,9 @@ Inductive case20 :=
          (kinds apis : list (string * bool))
          (fields : list (string * option string))
          (sizes : list N)            (* len(FieldOrder), len(kinds), len(apis), len(fields) at run time *)
-         (sdouble ssingle : N).
+         (sdouble ssingle : N)
+         (* the harness' own pinned copy of the reorderable lists (used by its value oracles) *)
+         (rkinds rapis : list string) (rfields : list (string * string)).
 
 Definition oclass_eqb20 (a b : oclass) : bool :=
   match a, b with
@@ -151,7 +153,7 @@ Definition agree20 (c : case20) : bool :=
           end
       | r => oclass_eqb20 cls (class_of r)
       end
-  | KTable ranks kinds apis fields sizes sd ss =>
+  | KTable ranks kinds apis fields sizes sd ss rk ra rf =>
       forallb (fun p => opt_N_eqb (field_order (fst p)) (snd p)) ranks &&
       forallb (fun p => Bool.eqb (str_in (fst p) wl_kinds) (snd p)) kinds &&
       forallb (fun p => Bool.eqb (str_in (fst p) wl_apis) (snd p)) apis &&
@@ -159,7 +161,9 @@ Definition agree20 (c : case20) : bool :=
       list_eqb N.eqb sizes
         [count_distinct field_sort_order; count_distinct wl_kinds; count_distinct wl_apis;
          count_distinct (map fst wl_fields)] &&
-      (sd =? style_double)%N && (ss =? style_single)%N
+      (sd =? style_double)%N && (ss =? style_single)%N &&
+      list_eqb String.eqb rk ref_wl_kinds && list_eqb String.eqb ra ref_wl_apis &&
+      list_eqb (fun a b => String.eqb (fst a) (fst b) && String.eqb (snd a) (snd b)) rf ref_wl_fields
   end.
 
 Fixpoint mism_from20 (i : N) (l : list case20) : list N :=
@@ -193,5 +197,5 @@ Definition diag20 (c : case20) : N :=
                end
       | r => if oclass_eqb20 cls (class_of r) then 0%N else 1%N
       end
-  | KTable _ _ _ _ _ _ _ => if agree20 c then 0%N else 6%N
+  | KTable _ _ _ _ _ _ _ _ _ _ => if agree20 c then 0%N else 6%N
   end.
